@@ -92,7 +92,8 @@ def expected_json(m, p):
             if x[0] == "attr":
                 attrs[x[1]] = x[2]
         if classes:
-            attrs["class"] = " ".join(classes)
+            # class shorthands accumulate, also onto an explicit (non-empty) class attribute written before them
+            attrs["class"] = " ".join(([attrs["class"]] if attrs.get("class") else []) + classes)
         els.append({"tag": list(e["names"]), "attrs": dict(sorted(attrs.items())), "collapsible": not e["fresh"], "separator": e["separator"]})
     return {"matcher": mj, "path": els}
 
@@ -113,8 +114,14 @@ def well_formed(m, p):
             classes = [x[1] for x in e["parts"] if x[0] == "class"]
             if not all(ident_ok(k) for k in keys + classes):
                 return False
-            if len(keys) != len(set(keys)) or (classes and "class" in keys):
+            if len(keys) != len(set(keys)):
                 return False
+            if classes and "class" in keys:
+                # defined only when the explicit class attribute is non-empty and comes before every shorthand
+                kinds = [x[0] if not (x[0] == "attr" and x[1] == "class") else "classattr" for x in e["parts"]]
+                val = [x[2] for x in e["parts"] if x[0] == "attr" and x[1] == "class"][0]
+                if not val or kinds.index("classattr") > kinds.index("class"):
+                    return False
     return True
 
 
